@@ -100,7 +100,6 @@ class C02(object):
             return {'kind': 'hostile', 'block': '\n'.join(lines), 'why': 'lines with a lag inside an expression', 'reduction': rng.random() < 0.5,
                     'cap': 400, 'tol': None}
         if idx % 20 in (6, 11):
-            # (index 11 mod 20 always lands in a worker that runs with asserts stripped, index 6 never does)
             h = (idx // 20) % len(NAN_DERIVED)
             return {'kind': 'hostile', 'block': NAN_DERIVED[h][0], 'why': NAN_DERIVED[h][1], 'fn_nan': NAN_DERIVED[h][2],
                     'nan_derived': True, 'reduction': True, 'cap': 400, 'tol': None}
